@@ -854,3 +854,21 @@ package parse
 //@   ensures named: errNamed(result, t.Name)
 //@ func parse.newLexer
 //@   ensures init: result != nil && result.start == 0 && result.pos == 0 && result.line == 1 && result.offset == 0 && result.mode == modeNormal && result.parens == 0
+
+// ---------------------------------------------------------------------------------------
+// C12: All() of every node that can contain statements returns every child (a node visitor - the auto-escape
+// visitor of package twig - reaches a print statement only through All()).
+//@ func parse.(*BlockNode).All
+//@   ensures complete: len(result) == 1 && result[0] == t.Body
+//@ func parse.(*IfNode).All
+//@   ensures complete: len(result) == 3 && result[0] == t.Cond && result[1] == t.Body && result[2] == t.Else
+//@ func parse.(*ForNode).All
+//@   ensures complete: len(result) == 3 && result[0] == t.X && result[1] == t.Body && result[2] == t.Else
+//@ func parse.(*SetNode).All
+//@   ensures complete: len(result) == 1 && result[0] == t.X
+//@ func parse.(*FilterNode).All
+//@   ensures complete: len(result) == 1 && result[0] == t.Body
+//@ func parse.(*MacroNode).All
+//@   ensures complete: len(result) == 1 && result[0] == box(t.Body, "*BodyNode")
+//@ func parse.(*PrintNode).All
+//@   ensures complete: len(result) == 1 && result[0] == t.X
